@@ -92,7 +92,7 @@ func runMuxStruct(c *mon.Ctx, prop string) {
 			}
 			r := c.Rng("grid", pl)
 			for shape := 0; shape < 12; shape++ {
-				p := &astits.Packet{Header: astits.PacketHeader{PID: 0x1500, HasPayload: pl > 0 || shape%2 == 0, ContinuityCounter: uint8(shape)}, Payload: gen.Bytes(r, int(pl))}
+				p := &astits.Packet{Header: astits.PacketHeader{PID: 0x1500, HasPayload: pl > 0, ContinuityCounter: uint8(shape)}, Payload: gen.Bytes(r, int(pl))}
 				switch shape / 2 {
 				case 1:
 					p.Header.HasAdaptationField = true
